@@ -12,8 +12,10 @@ letters, digits and `_ . : / -` are written `%<hex code point>$`; `~` is a nil p
 
   model line : kind=<K> ctlr=<c> steps=<n> new=<status> store=<status> sched=<op,op…> pokes=<statuses>
                ops: g (get error) n (not found) u (update error) c<i> (conflict, store := pokes[i]) o (ok)
-  output     : buggy=<R> fixed=<R>   with R = calls:<g1,u0,…>/subs:<statuses>/store:<status>/inv:<n>
-  judge line : kind= ctlr= steps= new=<status> calls=<g1,g0,u1,u0…> gets=<statuses> subs=<statuses>
+  output     : primary=<R> mutating=<R>   with R = calls:<g1,u0,…>/subs:<statuses>/store:<status>/inv:<n>
+               (primary = the code in the tree, `Setter.invoke`; mutating = pre-fix regression variant)
+  judge line : kind= ctlr= steps= new=<status> calls=<g1,g0,gn,u1,u0…> gets=<statuses> subs=<statuses> done=<1|0|->
+               gn = Get answered NotFound; done = what the retry function returned last (- = not observed)
   output     : ok <stats> | fail <clause> <detail>
   dedup line : conds=<conds>      output: <conds>
   attach line: ctlr= max= cur=<status> targets=<n>   output: own=<n> btpfull=<0|1>
@@ -131,9 +133,9 @@ def modelLine (line : String) : String :=
     match (if sched == "*" then some [] else (sched.splitOn ",").mapM (parseOp pokes)) with
     | some ops =>
       let s : Setter := { kind := k, ctlr := ctlr, cap := new }
-      let b := runRetry Setter.invoke steps (Run.init s store) ops
-      let f := runRetry Setter.invokeFixed steps (Run.init s store) ops
-      s!"buggy={showRun b} fixed={showRun f}"
+      let f := runRetry Setter.invoke steps (Run.init s store) ops
+      let b := runRetry Setter.invokeMutating steps (Run.init s store) ops
+      s!"primary={showRun f} mutating={showRun b}"
     | none => "bad-op"
   | _, _, _, _, _, _, _ => "bad-op"
 
@@ -216,11 +218,12 @@ def judgeCalls (k : Kind) (ctlr : String) (lim : Limits) (new : Status) :
     | none => .ok st
   | c :: cs, gets, subs, pending, idx, finished, st =>
     if finished then .error "call-after-done"
-    else if c == "g1" || c == "g0" then
+    else if c == "g1" || c == "g0" || c == "gn" then
       match pending with
       | some _ => .error "retry-after-noop"     -- setter said "nothing to do" but the loop went on
       | none =>
-        if c == "g0" then judgeCalls k ctlr lim new cs gets subs none idx false st
+        if c == "gn" then judgeCalls k ctlr lim new cs gets subs none idx true st
+        else if c == "g0" then judgeCalls k ctlr lim new cs gets subs none idx false st
         else match gets with
           | g :: gets' => judgeCalls k ctlr lim new cs gets' subs (some g) (idx + 1) false st
           | [] => .error "bad-trace"
@@ -257,7 +260,14 @@ def judgeLine (lims : List Nat) (line : String) : String :=
       let ngets := (cl.filter fun c => c.startsWith "g").length
       if ngets > steps then "fail too-many-attempts"
       else match judgeCalls k ctlr lim new cl gets subs none 0 false {} with
-        | .ok st => s!"ok inv={st.invocations} upd={st.updates} dupown={st.dupOwnPrev} dupkept={st.dupOwnKept}"
+        | .ok st =>
+          -- "retry-safe": the loop may report "done" only after a successful write, a no-op or NotFound
+          let done := field fs "done" == some "1"
+          match done, cl.getLast? with
+          | true, some "u0" => "fail done-after-failed-update"
+          | true, some "g0" => "fail done-after-failed-get"
+          | true, none => "fail done-without-get"
+          | _, _ => s!"ok inv={st.invocations} upd={st.updates} dupown={st.dupOwnPrev} dupkept={st.dupOwnKept}"
         | .error e => "fail " ++ e
     | _, _ => "bad-op"
   | _, _, _, _, _, _, _ => "bad-op"
